@@ -1,6 +1,7 @@
 import Mathlib.Tactic.Ring
 import Mathlib.Tactic.Abel
 import Mathlib.Tactic.Linarith
+import Mathlib.Tactic.Module
 import Mathlib.Algebra.Module.Basic
 import Mathlib.Algebra.BigOperators.Group.List.Basic
 import MidnightZK.Model.C20.Ipa
@@ -37,7 +38,12 @@ theorem innerProduct_fold_fold (u ui : F) (hu : u * ui = 1) :
       innerProduct (fold u sL ui sR) (fold u bR ui bL) =
         innerProduct sL bL + innerProduct sR bR +
           ((u * u) • innerProduct sL bR + (ui * ui) • innerProduct sR bL)
-  | [], _, _, _, _, _, _ => by simp [fold, innerProduct]
+  | [], sR, bL, bR, h1, h2, h3 => by
+    have e1 : sR = [] := List.length_eq_zero_iff.mp h1.symm
+    have e2 : bL = [] := List.length_eq_zero_iff.mp h2.symm
+    have e3 : bR = [] := List.length_eq_zero_iff.mp h3.symm
+    subst e1 e2 e3
+    simp [fold, innerProduct]
   | x :: sL, [], _, _, h, _, _ => by simp at h
   | x :: sL, _ :: _, [], _, _, h, _ => by simp at h
   | x :: sL, _ :: _, _ :: _, [], _, _, h => by simp at h
@@ -49,16 +55,13 @@ theorem innerProduct_fold_fold (u ui : F) (hu : u * ui = 1) :
       innerProduct_cons]
     have e : (u • x + ui • x') • (u • y' + ui • y) =
         x • y + x' • y' + ((u * u) • (x • y') + (ui * ui) • (x' • y)) := by
+      simp only [smul_eq_mul]
       have h1 : (u * ui) • (x • y) = x • y := by rw [hu, one_smul]
-      have h2 : (ui * u) • (x' • y') = x' • y' := by rw [mul_comm, hu, one_smul]
-      simp only [smul_eq_mul, add_smul, smul_add, mul_smul] at h1 h2 ⊢
-      rw [smul_comm x ui y, h1, smul_comm ui x' (u • y'), smul_comm x' u y', h2,
-        smul_comm x u (u • y'), smul_comm x u y', smul_comm ui x' (ui • y), smul_comm x' ui y,
-        smul_comm u x y']
-      abel
+      have h2 : (u * ui) • (x' • y') = x' • y' := by rw [hu, one_smul]
+      rw [← h1, ← h2]
+      module
     rw [e]
-    simp only [smul_add]
-    abel
+    module
 
 /-- Folding the bases and pairing with a coefficient vector = pairing the two halves with the
 coefficient vector scaled by the two challenges. -/
@@ -67,14 +70,16 @@ theorem innerProduct_fold_right (u ui : F) :
       innerProduct c (fold u x ui y) =
         innerProduct (c.map (· * u)) x + innerProduct (c.map (· * ui)) y
   | [], _, _, _ => by simp [innerProduct]
-  | _ :: _, [], _, _ => by simp [innerProduct, fold]
+  | _ :: _, [], y, h => by
+    have e : y = [] := List.length_eq_zero_iff.mp h.symm
+    subst e
+    simp [innerProduct, fold]
   | _ :: _, _ :: _, [], h => by simp at h
   | a :: c, p :: x, q :: y, h => by
     have ih := innerProduct_fold_right u ui c x y (by simpa using h)
     simp only [fold, List.zipWith_cons_cons, List.map_cons] at ih ⊢
     rw [innerProduct_cons, ih, innerProduct_cons, innerProduct_cons]
-    simp only [smul_add, mul_smul]
-    abel
+    module
 
 /-- The folding coefficients, recursively from the first challenge: the first challenge splits
 the index range into its two halves. -/
